@@ -2,7 +2,8 @@
 (***************************************************************************)
 (* Trace validation for ParamAlg: what the REAL tdgl.Parameter /           *)
 (* CompositeParameter objects did (build, ==, calls at scalar and array    *)
-(* arguments, _clear_cache, pickle / unpickle, the copy exercised again,   *)
+(* arguments, keyword arguments of the time-dependent leaves edited in     *)
+(* place, _clear_cache, pickle / unpickle, the copy exercised again,       *)
 (* TDGLSolver / solve) is checked to be a behaviour of ParamAlg, with the  *)
 (* property clauses evaluated in every state.                              *)
 (*                                                                         *)
@@ -50,6 +51,7 @@ TEq == /\ IsEv("eq") /\ Eq(Ev.other)
 
 TCall == /\ IsEv("call") /\ Ev.who = "orig" /\ Call(Ev.f, Ev.t, SeqToSet(Ev.fill))
          /\ \A a \in Args : ObsOK(Ev.obs[a], last'.kind, last'.vals[a])
+TRetune == IsEv("retune") /\ Ev.who = "orig" /\ Retune(Ev.c)
 TDeliver == /\ IsEv("deliver") /\ Deliver(Ev.f, Ev.t, Ev.a, Ev.b, SeqToSet(Ev.fill))
             /\ ObsOK(Ev.obs, last'.kind, last'.vals)
 TCallCopy == /\ IsEv("call") /\ Ev.who = "copy" /\ CallCopy(Ev.f, Ev.t, SeqToSet(Ev.fill))
@@ -68,7 +70,7 @@ TSolve == /\ IsEv("solve") /\ Solve
           /\ Ev.ok = last'.ok
           /\ Ev.ok => Ev.td = last'.td
 
-TNext == TBuild \/ TEq \/ TCall \/ TDeliver \/ TCallCopy \/ TClear \/ TClearCopy \/ TPickle \/ TUnpickle \/ TSolve
+TNext == TBuild \/ TEq \/ TCall \/ TRetune \/ TDeliver \/ TCallCopy \/ TClear \/ TClearCopy \/ TPickle \/ TUnpickle \/ TSolve
 TSpec == TInit /\ [][TNext]_tvars
 
 Accepted == (l = Len(T.ev) + 1) => PrintT(<<"ACCEPT", tid>>)
